@@ -117,3 +117,14 @@ Theorem C17_interleaving :
     /\ In (clear_cookie cfg (fl_index f)) (rp_cookies rp).
 Proof. exact interleaving. Qed.
 Print Assumptions C17_interleaving.
+
+(* The check evaluated on every generated history: for a configuration as
+   samlsp.New builds it and a script whose jar values are cookies issued
+   earlier (verbatim, damaged, or re-signed with another key) or garbage,
+   agreement of every observed reply with the model implies that the property
+   monitor accepts every step. *)
+Theorem C17_check_sound :
+  forall c, cfg_wf (hc_cfg c) -> forallb (saction_ok (hc_cfg c)) (hc_script c) = true ->
+            hcase_agree c = true -> hcase_spec c = true.
+Proof. exact hcase_check_sound. Qed.
+Print Assumptions C17_check_sound.
